@@ -135,3 +135,92 @@ def build_dbg_wrapper(scratch):
     if not lls or not sos:
         raise RuntimeError("build produced no .ll / .so: " + p.stderr[-2000:])
     return dict(ll=lls[-1], so=sos[0], dir=d, build_s=time.time() - t0)
+
+
+def fmtarg_items():
+    src = open(os.path.join(common.REPO, "impl/src/fmt/mod.rs")).read()
+    items = []
+    for hdr in (r"^struct FmtArgument\b", r"^impl Parse for FmtArgument\b", r"^impl ToTokens for FmtArgument\b"):
+        it = cut_item(src, hdr)
+        if it is None:
+            return None
+        items.append(it)
+    text = "\n\n".join(items)
+    text = text.replace("\nstruct FmtArgument", "\npub struct FmtArgument")
+    text = re.sub(r"\n    (alias|expr):", r"\n    pub \1:", text)
+    return "\n".join("    " + l if l.strip() else l for l in text.split("\n"))
+
+
+def build_scan_wrapper(scratch):
+    import time
+    t0 = time.time()
+    d = os.path.join(scratch, "scanprobe")
+    S = os.path.join(RUST, "scan")
+    os.makedirs(os.path.join(d, "src"))
+    for sh in ("shim_pm2", "shim_quote", "shim_syn"):
+        shutil.copytree(os.path.join(S, sh), os.path.join(d, sh))
+    items = fmtarg_items()
+    if items is None:
+        raise RuntimeError("could not cut FmtArgument out of impl/src/fmt/mod.rs")
+    tpl = open(os.path.join(S, "probe_scan.rs")).read()
+    tpl = tpl.replace("@PARSING_RS@", os.path.join(common.REPO, "impl/src/parsing.rs"))
+    tpl = tpl.replace("@TOKENS_RS@", os.path.join(S, "tokens.rs")).replace("@ORACLE_RS@", os.path.join(S, "scan_oracle.rs"))
+    tpl = tpl.replace("@FMTARG_ITEMS@", items)
+    open(os.path.join(d, "src/lib.rs"), "w").write(tpl)
+    deps = 'syn = { path = "shim_syn" }\nquote = { path = "shim_quote" }\nproc-macro2 = { path = "shim_pm2" }'
+    open(os.path.join(d, "Cargo.toml"), "w").write(CARGO_TOML % dict(name="scanprobe", deps=deps))
+    os.makedirs(os.path.join(d, ".cargo"))
+    open(os.path.join(d, ".cargo/config.toml"), "w").write("[net]\noffline = true\n")
+    env = dict(os.environ, CARGO_NET_OFFLINE="true", CARGO_TERM_COLOR="never")
+    env.pop("RUSTFLAGS", None)
+    p = subprocess.run(["cargo", "rustc", "--release", "--offline", "--lib", "--", "--emit=llvm-ir", "-C", "no-vectorize-loops",
+                        "-C", "no-vectorize-slp"], cwd=d, env=env, capture_output=True, text=True)
+    if p.returncode != 0:
+        raise RuntimeError(p.stdout + p.stderr)
+    lls = sorted(glob.glob(os.path.join(d, "target/release/deps/scanprobe*.ll")), key=os.path.getsize)
+    sos = glob.glob(os.path.join(d, "target/release/libscanprobe.so"))
+    if not lls or not sos:
+        raise RuntimeError("build produced no .ll / .so: " + p.stderr[-2000:])
+    return dict(ll=lls[-1], so=sos[0], dir=d, build_s=time.time() - t0)
+
+
+def build_scan_validator(scratch, wrapper_dir):
+    d = os.path.join(scratch, "scanvalidator")
+    os.makedirs(os.path.join(d, "src"))
+    # the wrapper as an rlib (LTO, which the IR build needs, is not available for rlibs: separate copy)
+    rl = os.path.join(scratch, "scanprobe_rlib")
+    shutil.copytree(wrapper_dir, rl, ignore=shutil.ignore_patterns("target"))
+    ct = open(os.path.join(rl, "Cargo.toml")).read().replace('crate-type = ["staticlib", "cdylib"]', 'crate-type = ["rlib"]')
+    ct = ct[:ct.index("[profile.release]")]
+    open(os.path.join(rl, "Cargo.toml"), "w").write(ct)
+    wrapper_dir = rl
+    main = open(os.path.join(RUST, "scan", "validator_main.rs")).read().replace("@PARSING_RS@", os.path.join(common.REPO, "impl/src/parsing.rs")).replace("@FMTARG_ITEMS@", fmtarg_items())
+    open(os.path.join(d, "src/main.rs"), "w").write(main)
+    lock = open(os.path.join(common.REPO, "Cargo.lock")).read()
+    def ver(name):
+        m = re.search(r'name = "%s"\nversion = "([^"]+)"' % re.escape(name), lock)
+        return m.group(1)
+    open(os.path.join(d, "Cargo.toml"), "w").write("""[package]
+name = "scanvalidator"
+version = "0.0.0"
+edition = "2021"
+
+[dependencies]
+syn = { version = "=%s", features = ["full", "extra-traits"] }
+proc-macro2 = "=%s"
+quote = "=%s"
+scanprobe = { path = "%s" }
+
+[workspace]
+
+[profile.release]
+opt-level = 2
+""" % (ver("syn"), ver("proc-macro2"), ver("quote"), wrapper_dir))
+    os.makedirs(os.path.join(d, ".cargo"))
+    open(os.path.join(d, ".cargo/config.toml"), "w").write("[net]\noffline = true\n")
+    env = dict(os.environ, CARGO_NET_OFFLINE="true", CARGO_TERM_COLOR="never")
+    env.pop("RUSTFLAGS", None)
+    p = subprocess.run(["cargo", "build", "--release", "--offline"], cwd=d, env=env, capture_output=True, text=True)
+    if p.returncode != 0:
+        raise RuntimeError(p.stdout + p.stderr)
+    return os.path.join(d, "target/release/scanvalidator")
